@@ -31,7 +31,7 @@ def base_cfg(kind, variant, opt, tracked):
     cfg = {"kind": kind, "dim": d, "opt": opt, "theta": 0.75 + 0.25 * (variant % 3), "alpha": 1.25, "u0": 0.5,
            "data_key": 11 + variant, "tracked": tracked,
            "net": {"type": "mlp", "width": 3, "act": "tanh", "key": variant} if variant % 2 else
-           {"type": "field", "field": {"din": d + (1 if kind == "ode" else 0), "m": 1, "post": "id", "mono": None, "lin": None,
+           {"type": "field", "field": {"din": d + (0 if kind == "statio" else 1), "m": 1, "post": "id", "mono": None, "lin": None,
                                        "gauss": None, "quad": [[[q(-0.5, 0.5)] * (d + (0 if kind == "statio" else 1))] *
                                                                (d + (0 if kind == "statio" else 1))],
                                        "sin": [[[q(0.5, 1.5), q(-1, 1), [q(0.5, 1.5)] * (d + (0 if kind == "statio" else 1))]]]}},
